@@ -218,7 +218,9 @@ func (e Entry) Header() *tar.Header {
 }
 
 // Layer is one non-empty (tar-backed) layer. An image layer that exists only as a history
-// entry is described by History{Empty: true}, not by a Layer.
+// entry is described by History{Empty: true}, not by a Layer. A Layer without Entries is
+// still a real layer of the image: its tar stream is the end-of-archive marker alone (1024
+// zero bytes, diff ID sha256:5f70bf18...), as builders emit for steps that change nothing.
 type Layer struct {
 	Entries []Entry `json:"entries"`
 	// Format is "", "pax", "ustar" or "gnu" (archive/tar picks when empty).
